@@ -12,12 +12,12 @@ Open Scope Z_scope.
 Theorem C29_bbox_contains_extents :
   forall d s r, In s (d_shapes d) -> 0 <= s_sw s -> 0 <= s_w s -> 0 <= s_h s ->
     In r (core_extents s) -> inside r (bbox d).
-Proof. exact bbox_contains_core. Qed.
+Proof. exact (bbox_contains_core bbox_label_tl). Qed.
 
 (* every route point, with half the connection's stroke around it *)
 Theorem C29_bbox_contains_route_points :
   forall d s0 c r, In s0 (d_shapes d) -> In c (d_conns d) -> In r (route_extents c) -> inside r (bbox d).
-Proof. exact bbox_contains_routes. Qed.
+Proof. exact (bbox_contains_routes bbox_label_tl). Qed.
 
 (* connection labels and arrowhead labels: inside up to the ONE pixel that Go's int() truncation of the label
    point can lose, and exactly inside when the point is integral *)
@@ -27,7 +27,7 @@ Theorem C29_bbox_contains_connection_labels :
     fnum_wf (l_x l) -> fnum_wf (l_y l) ->
     inside (clabel_rect l) (grow 1 (bbox d))
     /\ (fl (l_x l) = ce (l_x l) -> fl (l_y l) = ce (l_y l) -> inside (clabel_rect l) (bbox d)).
-Proof. exact bbox_contains_conn_labels_slack. Qed.
+Proof. exact (bbox_contains_conn_labels_slack bbox_label_tl). Qed.
 
 (* outside and border labels of shapes without 3D / multiple copies: as drawn (GetPointOnBox in half pixels),
    inside up to one pixel, exactly inside when the drawn point is integral *)
@@ -39,6 +39,20 @@ Theorem C29_bbox_contains_shape_labels :
       /\ (let '(px, py) := draw_label_tl s pos lw lh in Z.even px = true -> Z.even py = true -> inside r (bbox d)).
 Proof. exact bbox_contains_shape_labels_slack. Qed.
 
+(* repaired code (coq/C29/fix.patch, bbox_fixed): the same for EVERY shape, also with 3D / multiple copies; the
+   other theorems hold for bbox_fixed as well (they are proved for any label-point function) *)
+Theorem C29_fixed_bbox_contains_shape_labels :
+  forall d s pos lw lh, In s (d_shapes d) -> s_label s = Some (pos, lw, lh) ->
+    forall r, In r (label_extents s) ->
+      inside r (grow 1 (bbox_fixed d))
+      /\ (let '(px, py) := draw_label_tl s pos lw lh in Z.even px = true -> Z.even py = true -> inside r (bbox_fixed d)).
+Proof. exact bbox_fixed_contains_shape_labels. Qed.
+
+Theorem C29_fixed_bbox_contains_extents :
+  forall d s r, In s (d_shapes d) -> 0 <= s_sw s -> 0 <= s_w s -> 0 <= s_h s ->
+    In r (core_extents s) -> inside r (bbox_fixed d).
+Proof. exact (bbox_contains_core fixed_label_tl). Qed.
+
 (* outside icons, as drawn, for every outside position except outside-top-left, when the icon (plus the label
    padding) is not larger than the shape and BoundingBox does not under-estimate its size *)
 Theorem C29_bbox_contains_outside_icon :
@@ -46,7 +60,7 @@ Theorem C29_bbox_contains_outside_icon :
     is_outside pos = true -> pos <> 1%N ->
     0 <= dsize <= bsize -> dsize + LABEL_PADDING <= s_w s -> dsize + LABEL_PADDING <= s_h s ->
     forall r, In r (icon_extents s) -> inside r (bbox d).
-Proof. exact bbox_contains_outside_icon. Qed.
+Proof. exact (bbox_contains_outside_icon bbox_label_tl). Qed.
 
 (* d2svg.dimensions (with or without legend, any legend size) followed by Render's shifts for the root stroke and
    the double border: the viewBox contains the reported box grown by the padding *)
@@ -91,6 +105,8 @@ Print Assumptions C29_bbox_contains_extents.
 Print Assumptions C29_bbox_contains_route_points.
 Print Assumptions C29_bbox_contains_connection_labels.
 Print Assumptions C29_bbox_contains_shape_labels.
+Print Assumptions C29_fixed_bbox_contains_shape_labels.
+Print Assumptions C29_fixed_bbox_contains_extents.
 Print Assumptions C29_bbox_contains_outside_icon.
 Print Assumptions C29_viewport_contains_bbox_plus_pad.
 Print Assumptions C29_viewport_contains_extent_plus_pad.
